@@ -465,7 +465,7 @@ pub fn run(ctx: &mut Ctx) {
         "payloads are synthesised in the venue's documented JSON shape and parsed by the connector's own Deserialize impls".into(),
     ];
     ctx.run_regressions::<BinanceL2Stream>();
-    ctx.run::<BinanceL2Stream>(ctx.tier.pick(6_000, 160_000));
+    ctx.run::<BinanceL2Stream>(ctx.tier.pick(60_000, 1_000_000));
 }
 
 pub fn replay(ctx: &mut Ctx, doc: &Value) -> bool {
